@@ -27,8 +27,15 @@ OpsArrNoMove ==
 OpsObj ==
   {O("obj.set", a, 0, 1) : a \in 0..1} \cup
   {O("obj.del", a, 0, 0) : a \in 0..1} \cup
-  {O("obj.setobj", a, 0, 2) : a \in 0..1} \cup
-  {O("obj.setin", a, 0, 3) : a \in 0..1}
+  {O("obj.setobj", a, 0, v) : a \in 0..1, v \in {1, 2}} \cup
+  {O("obj.setin", a, 0, v) : a \in 0..1, v \in {0, 1}}
+
+\* nested containers: replace / delete a container while a peer edits inside it
+OpsNest ==
+  {O("obj.setobj", a, 0, v) : a \in 0..1, v \in 0..3} \cup
+  {O("obj.setin", a, 0, v) : a \in 0..1, v \in 0..1} \cup
+  {O("obj.del", a, 0, 0) : a \in 0..1} \cup
+  {O("obj.set", a, 0, 1) : a \in 0..1}
 
 OpsTxt ==
   {O("txt.edit", a, b, v) : a \in {0, 1, 3}, b \in {0, 1, 2}, v \in {0, 2}} \cup
@@ -43,13 +50,29 @@ OpsTree ==
   {O("tree.style", a, 0, v) : a \in 0..1, v \in 0..1} \cup
   {O("tree.rmstyle", a, 0, 0) : a \in 0..1}
 
+\* KF-TREE-INSERT-INTO-REMOVED-PARENT guard: histories with several edits per
+\* client use one of these two halves of OpsTree
+OpsTreeText ==
+  {O("tree.edit", a, b, v) : a \in 0..1, b \in 0..2, v \in {0, 1, 4}} \cup
+  {O("tree.edit", a, 0, 2) : a \in 0..2} \cup
+  {O("tree.style", a, 0, v) : a \in 0..1, v \in 0..1} \cup
+  {O("tree.rmstyle", a, 0, 0) : a \in 0..1}
+OpsTreeElem ==
+  {O("tree.edit", a, 0, v) : a \in 0..2, v \in {2, 3}} \cup
+  {O("tree.style", a, 0, v) : a \in 0..1, v \in 0..1} \cup
+  {O("tree.rmstyle", a, 0, 0) : a \in 0..1}
+
 OpsPres == {O("pres.set", a, 0, v) : a \in 0..1, v \in 1..2}
 
+OpsOne == {O("cnt.inc", 0, 0, 1)}
+OpsPresMix == OpsPres \cup OpsCnt
+
 \* a mixed alphabet for simulation
-OpsMix == OpsArr \cup OpsObj \cup OpsTxt \cup OpsCnt \cup OpsTree
+OpsMix == OpsArr \cup OpsObj \cup OpsTxt \cup OpsCnt \cup OpsTreeText
+OpsMix2 == OpsArr \cup OpsNest \cup OpsTxt \cup OpsCnt \cup OpsTreeElem
 OpsGC == {O("arr.add", 0, 0, 1), O("arr.ins", 0, 0, 2), O("arr.ins", 2, 0, 2), O("arr.del", 0, 0, 0), O("arr.del", 2, 0, 0),
           O("arr.mov", 0, 2, 0), O("arr.mov", 2, 0, 0), O("arr.set", 1, 0, 3),
           O("obj.set", 0, 0, 1), O("obj.del", 0, 0, 0), O("obj.setobj", 0, 0, 2),
           O("txt.edit", 1, 1, 0), O("txt.edit", 1, 0, 2), O("txt.edit", 0, 2, 2), O("txt.style", 0, 1, 1),
-          O("tree.edit", 0, 1, 1), O("tree.edit", 0, 0, 3), O("tree.edit", 1, 1, 0), O("tree.rmstyle", 0, 0, 0), O("tree.style", 0, 0, 1)}
+          O("tree.edit", 0, 1, 1), O("tree.edit", 0, 0, 2), O("tree.edit", 1, 1, 0), O("tree.rmstyle", 0, 0, 0), O("tree.style", 0, 0, 1)}
 =============================================================================
